@@ -3,7 +3,7 @@
 
 usage: gen.py <family> <seed> <count>      -> case lines on stdout
 """
-import random, sys
+import random, sys, re
 
 FRAGS = [b"<", b">", b"/", b"!", b"-", b"--", b"=", b'"', b"'", b" ", b"\n", b"a", b"b", b"X", b"1", b"?", b"]", b"[", b"\0",
     b"<div", b"</div>", b"<div>", b"<script>", b"</script>", b"</SCRIPT ", b"<style>", b"</style>", b"<title>", b"</title>",
@@ -15,7 +15,7 @@ FRAGS = [b"<", b">", b"/", b"!", b"-", b"--", b"=", b'"', b"'", b" ", b"\n", b"a
     b"<g/>", b"<path d=1 />", b"<select>", b"</select>", b"<template>", b"</template>", b"<frameset>", b"<noframes>", b"</noframes>",
     b"<input>", b"<option>", b"<table>", b"<tr><td>", b"<!-->", b"<!--->", b"<!--x--!>", b"<a b='c' D=\"e\" f=g h>", b"<img src=x/>",
     b"<iframe>", b"</iframe>", b"<noscript>", b"</noscript>", b"<!-- <script> -->", b"<script><!--", b"<script><!--<script>",
-    b"</script>-->", b"<textarea a=>", b"<script x=>", b"<title y= >", b"<style z=>", b"<xmp q=>", b"<div a=>", b"<li class=x id=y>", b"<span>", b"</span>", b"<h1>", b"</h1>", b"<ul>", b"</ul>"]
+    b"</script>-->", b"<scripts", b"<script_count", b"<scriptx>", b"<script><!--", b"<script\t", b"</scriptx", b"<textarea a=>", b"<script x=>", b"<title y= >", b"<style z=>", b"<xmp q=>", b"<div a=>", b"<li class=x id=y>", b"<span>", b"</span>", b"<h1>", b"</h1>", b"<ul>", b"</ul>"]
 
 def doc(rng, maxfrags=10):
     k = 1 + rng.randrange(maxfrags)
@@ -208,7 +208,7 @@ def gen_el_ops(rng, observe=False):
         elif c < 12: ops.append("rk")
         elif c < 15: ops.append("sa:%s:%s" % (hx(rng.choice(ATTRN + ["new", "a=b", "", "x y"])), hx(rng.choice(ATTRV + ['say "hi"', "<>&"]))))
         elif c < 16: ops.append("ra:" + hx(rng.choice(ATTRN)))
-        elif c < 17: ops.append("tn:" + hx(rng.choice(["b", "section", "X", "1a", "a b", "", "my-x"])))
+        elif c < 17: ops.append("tn:" + hx(rng.choice(["b", "section", "X", "1a", "a b", "", "my-x", "\u00e9l", "\u0434\u0438\u0432", "x\u00e9", "a>b", "-x"])))
         elif c < 18: ops.append("oe:(%s)" % "+".join(gen_et_op(rng) for _ in range(rng.choice([0, 1, 2]))))
         elif c < 19: ops.append(rng.choice(["sb:", "sf:", "sr:"]) + gen_chunk(rng))
         else: ops.append("sx")
@@ -376,16 +376,21 @@ def gen_enc(rng, n, prefix="e"):
             elif c < 7: parts.append(b"long ascii text " * rng.randrange(60, 90) + (enc_text(rng, cur) if rng.randrange(2) else b""))
             elif c < 11:
                 t = rng.choice([b"p", b"div", b"span", b"a", b"b"]); v = enc_text(rng, cur).replace(b'"', b"").replace(b">", b"")
-                parts.append(b"<" + t + b' title="' + v + b'" ' + rng.choice([b"", b"x=y", b"data-" + bytes(rng.randrange(0x80, 0x100) for _ in range(2)) + b"=1"]) + b">")
+                nm = re.sub(rb"[\x00-\x20\"'>/=<]", b"", enc_text(rng, cur))[:12] or b"n"
+                parts.append(b"<" + t + b' title="' + v + b'" ' + rng.choice([b"", b"x=y", b"data-" + bytes(rng.randrange(0x80, 0x100) for _ in range(2)) + b"=1", b"D" + nm + b"=2", nm + b"A=3"]) + b">")
             elif c < 13: parts.append(b"</" + rng.choice([b"p", b"div", b"span", b"a"]) + b">")
             elif c < 15: parts.append(b"<!--" + enc_text(rng, cur).replace(b"--", b"-").replace(b">", b"") + b"-->")
             elif c < 16: parts.append(b"<" + rng.choice([b"my-\xc3\xa9l", b"x\xe4\xb8\xad", b"t\xff"]) + b">")
             elif c < 17: parts.append(rng.choice([b"<script>", b"<style>", b"<title>"]) + enc_text(rng, cur).replace(b"<", b"") + rng.choice([b"</script>", b"</style>", b"</title>"]))
             elif c < 19 and meta:
                 new = rng.randrange(36)
-                parts.append(b"<meta " + rng.choice([b"charset=", b'CHARSET="', b"charset='"]) + rng.choice([ENC_LABELS[new].encode(), ENC_LABELS[new].upper().encode(), b"bogus", b"utf-16", b"iso-2022-jp"]))
-                q = parts[-1].split(b"=", 1)[1][:1]
-                parts[-1] += (q if q in (b'"', b"'") else b"") + b">"
+                label = rng.choice([ENC_LABELS[new].encode(), ENC_LABELS[new].upper().encode(), b"bogus", b"utf-16", b"iso-2022-jp", b"utf-16le", b"replacement"])
+                if rng.randrange(3) == 0:
+                    parts.append(b'<meta http-equiv="' + rng.choice([b"Content-Type", b"content-type", b"refresh"]) + b'" content="text/html; charset=' + label + b'">')
+                else:
+                    parts.append(b"<meta " + rng.choice([b"charset=", b'CHARSET="', b"charset='"]) + label)
+                    q = parts[-1].split(b"=", 1)[1][:1]
+                    parts[-1] += (q if q in (b'"', b"'") else b"") + b">"
                 if ENC_LABELS[new].encode() in parts[-1].lower() and cur == idx: cur = new
             else: parts.append(b"<br>")
         data = b"".join(parts)
